@@ -541,10 +541,11 @@ class J1939_21:
                     return
 
         if pgn_value == ParameterGroupNumber.PGN.ADDRESSCLAIM:
-            for ca in self._cas:
+            # (over a snapshot: remove_ca may be called while the CAs are being asked)
+            for ca in list(self._cas):
                 ca._process_addressclaim(mid, data, timestamp)
         elif pgn_value == ParameterGroupNumber.PGN.REQUEST:
-            for ca in self._cas:
+            for ca in list(self._cas):
                 if ca.message_acceptable(dest_address):
                     ca._process_request(mid, dest_address, data, timestamp)
         elif pgn_value == ParameterGroupNumber.PGN.TP_CM:
